@@ -1074,7 +1074,7 @@ _BUILTIN_SYMS = {
     "range", "enumerate", "zip", "any", "all", "sum", "print", "hash", "round", "type", "hasattr", "getattr",
     "setattr", "isinstance", "issubclass", "open", "super", "object", "Exception", "NotImplementedError", "ValueError",
     "KeyError", "AssertionError", "RuntimeError", "TypeError", "id", "repr", "iter", "next", "map", "filter", "frozenset",
-    "AttributeError", "UserWarning", "DeprecationWarning", "__name__", "__file__", "callable", "divmod",
+    "AttributeError", "UserWarning", "DeprecationWarning", "__name__", "__file__", "callable", "divmod", "slice", "IndexError", "FileNotFoundError", "StopIteration", "ZeroDivisionError", "bytes", "complex", "property", "staticmethod", "classmethod", "vars", "dir", "ord", "chr", "pow",
 }
 
 
